@@ -303,6 +303,9 @@ def run(ck):
     driver = ck.lean_exe("c47driver", "TfelVerif/C47/Driver.lean")
     res = ck.lean(PROPS, PROPS)
     ck.lean_violations(res)
+    if not ck.quick:
+        for (mod, log) in ck.leanchecker(PROPS):
+            ck.violation("leanchecker:" + mod, "leanchecker rejects %s" % mod, {"log": log}, False)
     env = {"ASAN_OPTIONS": "detect_leaks=0"}
 
     consts = run_batch(ck, harness, ["C"], env=env)[0].split()
